@@ -530,6 +530,9 @@ class ConfigParser(object):
       return False, None
 
     while continue_parsing:
+      if token_value and token_value != '-':
+        # Adjacent string literals: keep the pieces apart, as in the source.
+        token_value += ' '
       token_value += self._current_token.string
 
       try:
